@@ -301,6 +301,56 @@ end
     `agree_bytes`, `agree_any`). -/
 def VOK (v : JV) : Prop := shapeW v = true
 
+mutual
+/-- the values an `arbitrary_precision` build holds: every number is its literal text, an RFC 8259 number
+    (`Spec.WF.shapeOK` with `ap = true`, without the condition on the order of the keys) -/
+def shapeA : JV → Bool
+  | .num (.lit s) => Spec.Number.isNumber s
+  | .num _ => false
+  | .str s => Spec.Utf8.validUtf8 s
+  | .arr xs => shapeAs xs
+  | .obj kvs => shapeAm kvs
+  | _ => true
+def shapeAs : List JV → Bool
+  | [] => true
+  | x :: xs => shapeA x && shapeAs xs
+def shapeAm : List (Bytes × JV) → Bool
+  | [] => true
+  | (k, x) :: kvs => Spec.Utf8.validUtf8 k && shapeA x && shapeAm kvs
+end
+
+/-- the values of an `arbitrary_precision` build -/
+def VOKa (v : JV) : Prop := shapeA v = true
+
+/-- the values of either build: what the lemmas that do not read a number need (the first byte of the text tells the kind,
+    strings and keys are valid UTF-8, closed under elements and members) -/
+def VOKg (v : JV) : Prop := VOK v ∨ VOKa v
+
+omit hext in
+mutual
+theorem shapeA_of_shapeOK (c : Spec.Canon.Cfg) (hc : c.ap = true) : ∀ v : JV, Spec.WF.shapeOK c v = true → shapeA v = true
+  | .null, _ | .bool _, _ => rfl
+  | .num n, h => by
+    cases n <;> simp_all [shapeA, Spec.WF.shapeOK, Spec.WF.wfNum]
+  | .str s, h => by simpa [shapeA, Spec.WF.shapeOK] using h
+  | .arr xs, h => by
+    simp only [shapeA, Spec.WF.shapeOK] at h ⊢
+    exact shapeAs_of_shapeOKs c hc xs h
+  | .obj kvs, h => by
+    simp only [shapeA, Spec.WF.shapeOK, Bool.and_eq_true] at h ⊢
+    exact shapeAm_of_shapeOKm c hc kvs h.2
+theorem shapeAs_of_shapeOKs (c : Spec.Canon.Cfg) (hc : c.ap = true) : ∀ xs : List JV, Spec.WF.shapeOKs c xs = true → shapeAs xs = true
+  | [], _ => rfl
+  | x :: xs, h => by
+    simp only [shapeAs, Spec.WF.shapeOKs, Bool.and_eq_true] at h ⊢
+    exact ⟨shapeA_of_shapeOK c hc x h.1, shapeAs_of_shapeOKs c hc xs h.2⟩
+theorem shapeAm_of_shapeOKm (c : Spec.Canon.Cfg) (hc : c.ap = true) : ∀ kvs : List (Bytes × JV), Spec.WF.shapeOKm c kvs = true → shapeAm kvs = true
+  | [], _ => rfl
+  | (k, x) :: kvs, h => by
+    simp only [shapeAm, Spec.WF.shapeOKm, Bool.and_eq_true] at h ⊢
+    exact ⟨⟨h.1.1, shapeA_of_shapeOK c hc x h.1.2⟩, shapeAm_of_shapeOKm c hc kvs h.2⟩
+end
+
 /-- a typed parser `de` on the text `txt` (followed by a separator) against the verdict `fv` of the `Value` side -/
 def Agree1 (de : Bytes → Nat → TOut) (fv : FromValue.R) (txt : Bytes) : Prop := ∀ rest pos, SepOK rest →
   match fv with
@@ -366,10 +416,10 @@ def HeadOf (v : JV) (c : UInt8) : Prop :=
   | .num (.pos _) => Machine.isDigit c = true
   | .num (.neg _) => c = 0x2d
   | .num (.float _) => isNumStart c = true
+  | .num (.lit _) => isNumStart c = true
   | .str _ => c = 0x22
   | .arr _ => c = 0x5b
   | .obj _ => c = 0x7b
-  | _ => False
 
 omit hext in
 /-- a finite float is printed by `ryu` -/
@@ -429,6 +479,53 @@ theorem T_head (v : JV) (hv : VOK v) : ∃ c tl, T ext v = c :: tl ∧ HeadOf v 
   | obj kvs => obtain ⟨tl, h⟩ := T_obj ext kvs; exact ⟨_, tl, h, rfl⟩
 
 omit hext in
+/-- a literal is printed verbatim -/
+theorem T_numLit (r : Bytes) : T ext (.num (.lit r)) = r := by
+  simp only [T, render, imageOfValue, Spec.Image.numOf, layoutWith]
+  exact SJ.Proofs.Number.splitNumber_bytes r
+
+omit hext in
+theorem VOK.g {v : JV} (h : VOK v) : VOKg v := .inl h
+omit hext in
+theorem VOKa.g {v : JV} (h : VOKa v) : VOKg v := .inr h
+
+omit hext in
+/-- the literal of an `arbitrary_precision` value is an RFC 8259 number -/
+theorem voka_lit {s : Bytes} (h : VOKa (.num (.lit s))) : Spec.Grammar.IsNumber s :=
+  (SJ.Proofs.Number.isNumber_iff s).1 (by simpa [VOKa, shapeA] using h)
+
+omit hext in
+theorem vokg_lit {s : Bytes} (h : VOKg (.num (.lit s))) : Spec.Grammar.IsNumber s := by
+  rcases h with h | h
+  · simp [VOK, shapeW, wfNumW] at h
+  · exact voka_lit h
+
+theorem T_head_g (v : JV) (hv : VOKg v) : ∃ c tl, T ext v = c :: tl ∧ HeadOf v c := by
+  rcases hv with hv | hv
+  · exact T_head ext hext v hv
+  · cases v with
+    | null => exact ⟨_, _, T_null ext, rfl⟩
+    | bool b => cases b <;> exact ⟨_, _, rfl, rfl⟩
+    | num n =>
+      cases n with
+      | lit s =>
+        obtain ⟨c, tl, h, hc⟩ := isNumber_head _ (voka_lit hv)
+        exact ⟨c, tl, by rw [T_numLit, h], hc⟩
+      | pos _ => simp [VOKa, shapeA] at hv
+      | neg _ => simp [VOKa, shapeA] at hv
+      | float _ => simp [VOKa, shapeA] at hv
+    | str s => obtain ⟨tl, h⟩ := T_str ext s; exact ⟨_, tl, h, rfl⟩
+    | arr xs => exact ⟨_, _, T_arr ext xs, rfl⟩
+    | obj kvs => obtain ⟨tl, h⟩ := T_obj ext kvs; exact ⟨_, tl, h, rfl⟩
+
+omit hext in
+/-- strings are valid UTF-8 in either build -/
+theorem vokg_str {s : Bytes} (h : VOKg (.str s)) : Spec.Utf8.validUtf8 s = true := by
+  rcases h with h | h
+  · simpa [VOK, shapeW] using h
+  · simpa [VOKa, shapeA] using h
+
+omit hext in
 /-- `-` or a digit is none of the bytes the entry points dispatch on -/
 theorem numStart_facts {c : UInt8} (h : isNumStart c = true) :
     Machine.isWs c = false ∧ (c == 0x6e) = false ∧ (c == 0x74) = false ∧ (c == 0x66) = false ∧ (c == 0x5d) = false ∧
@@ -462,7 +559,7 @@ theorem headOf_facts {v : JV} {c : UInt8} (h : HeadOf v c) : Machine.isWs c = fa
       intro e; subst e; simp at h1
     | neg i => cases h; decide
     | float b => have hf := numStart_facts h; exact ⟨hf.1, hf.2.2.2.2.1, hf.2.2.2.2.2.1⟩
-    | lit s => cases h
+    | lit s => have hf := numStart_facts h; exact ⟨hf.1, hf.2.2.2.2.1, hf.2.2.2.2.2.1⟩
   | str s => cases h; decide
   | arr xs => cases h; decide
   | obj kvs => cases h; decide
@@ -473,8 +570,8 @@ theorem headOf_tests {v : JV} {c : UInt8} (h : HeadOf v c) :
     (c == 0x74) = (match v with | .bool true => true | _ => false) ∧
     (c == 0x66) = (match v with | .bool false => true | _ => false) ∧
     isNumStart c = (match v with | .num _ => true | _ => false) ∧
-    (c == 0x2d) = (match v with | .num (.neg _) => true | .num (.float _) => c == 0x2d | _ => false) ∧
-    Machine.isDigit c = (match v with | .num (.pos _) => true | .num (.float _) => Machine.isDigit c | _ => false) ∧
+    (c == 0x2d) = (match v with | .num (.neg _) => true | .num (.float _) => c == 0x2d | .num (.lit _) => c == 0x2d | _ => false) ∧
+    Machine.isDigit c = (match v with | .num (.pos _) => true | .num (.float _) => Machine.isDigit c | .num (.lit _) => Machine.isDigit c | _ => false) ∧
     (c == 0x5b) = (match v with | .arr _ => true | _ => false) ∧
     (c == 0x7b) = (match v with | .obj _ => true | _ => false) ∧
     (c == 0x22) = (match v with | .str _ => true | _ => false) := by
@@ -492,7 +589,10 @@ theorem headOf_tests {v : JV} {c : UInt8} (h : HeadOf v c) :
       have hf := numStart_facts h
       simp only [HeadOf] at h
       simp [h, hf.2.1, hf.2.2.1, hf.2.2.2.1, hf.2.2.2.2.2.2.1, hf.2.2.2.2.2.2.2.1, hf.2.2.2.2.2.2.2.2]
-    | lit s => cases h
+    | lit s =>
+      have hf := numStart_facts h
+      simp only [HeadOf] at h
+      simp [h, hf.2.1, hf.2.2.1, hf.2.2.2.1, hf.2.2.2.2.2.2.1, hf.2.2.2.2.2.2.2.1, hf.2.2.2.2.2.2.2.2]
   | str s => cases h; simp [isNumStart, Machine.isDigit]
   | arr xs => cases h; simp [isNumStart, Machine.isDigit]
   | obj kvs => cases h; simp [isNumStart, Machine.isDigit]
@@ -540,11 +640,11 @@ theorem small_of_inRange (w : IntTy) (h128 : ¬ is128 w = true) (x : Int) (hr : 
 
 section
 variable {env : Env} (hflt : env.flt = false) (cfg' : FromValue.Cfg) (hap : cfg'.ap = false) (ext' : FromValue.Ext)
-include hflt hap
+include hflt
 
-theorem agree_bool (v : JV) (hv : VOK v) : Agree1 (deBool env) (FromValue.fromValue cfg' ext' .bool v) (T ext v) := by
+theorem agree_bool_g (v : JV) (hv : VOKg v) : Agree1 (deBool env) (FromValue.fromValue cfg' ext' .bool v) (T ext v) := by
   intro rest pos hs
-  obtain ⟨c, tl, hT, hc⟩ := T_head ext hext v hv
+  obtain ⟨c, tl, hT, hc⟩ := T_head_g ext hext v hv
   have hw := (headOf_facts hc).1
   cases v with
   | bool b =>
@@ -600,11 +700,18 @@ theorem agree_bool (v : JV) (hv : VOK v) : Agree1 (deBool env) (FromValue.fromVa
       have hf := numStart_facts hc
       simp only [hf.2.2.1, hf.2.2.2.1, Bool.false_eq_true, if_false]
       exact peekInvalidType_not_ok _ _ _ _ _ _
-    | lit s => cases hc
+    | lit s =>
+      have hf := numStart_facts hc
+      simp only [hf.2.2.1, hf.2.2.2.1, Bool.false_eq_true, if_false]
+      exact peekInvalidType_not_ok _ _ _ _ _ _
 
-theorem agree_unit (v : JV) (hv : VOK v) : Agree1 (deUnit env) (FromValue.fromValue cfg' ext' .unit v) (T ext v) := by
+include hap in
+theorem agree_bool (v : JV) (hv : VOK v) : Agree1 (deBool env) (FromValue.fromValue cfg' ext' .bool v) (T ext v) :=
+  agree_bool_g ext hext hflt cfg' ext' v hv.g
+
+theorem agree_unit_g (v : JV) (hv : VOKg v) : Agree1 (deUnit env) (FromValue.fromValue cfg' ext' .unit v) (T ext v) := by
   intro rest pos hs
-  obtain ⟨c, tl, hT, hc⟩ := T_head ext hext v hv
+  obtain ⟨c, tl, hT, hc⟩ := T_head_g ext hext v hv
   have hw := (headOf_facts hc).1
   have ht := headOf_tests hc
   cases v with
@@ -628,6 +735,11 @@ theorem agree_unit (v : JV) (hv : VOK v) : Agree1 (deUnit env) (FromValue.fromVa
     simp only [ht.1, Bool.false_eq_true, if_false]
     exact peekInvalidType_not_ok _ _ _ _ _ _
 
+include hap in
+theorem agree_unit (v : JV) (hv : VOK v) : Agree1 (deUnit env) (FromValue.fromValue cfg' ext' .unit v) (T ext v) :=
+  agree_unit_g ext hext hflt cfg' ext' v hv.g
+
+include hap in
 /-- integer targets. `hfl`: a float is refused by the typed side too — which is the case when `ryu`'s text is read back
     as the float (`Spec.WF.floatRT`) and the target is not a 128-bit one (`SJ.Proofs.TypedFloat.int_float_refused`; the
     128-bit scanners take the integer prefix of `1.5` and leave the rejection to the caller) -/
@@ -767,7 +879,7 @@ theorem agree_int (w : IntTy) (v : JV) (hv : VOK v)
     | float b =>
       simp only [FromValue.fromValue, FromValue.deInt, FromValue.numberInt, hap, Bool.false_eq_true, if_false, FromValue.fail]
       exact hfl b rfl rest pos hs
-    | lit s => cases hc
+    | lit s => have := hv; simp [VOK, shapeW, wfNumW] at this
   | null | bool _ | str _ | arr _ | obj _ =>
     simp only [FromValue.fromValue, FromValue.deInt, FromValue.fail]
     intro x r p
@@ -796,13 +908,13 @@ theorem agree_int (w : IntTy) (v : JV) (hv : VOK v)
 
 /-! ## containers -/
 
-omit hflt hap hext in
+omit hflt hext in
 theorem map_not_ok {α β : Type} {r : Res α} {f : α → β} (h : ∀ x r' p, r ≠ .ok x r' p) : ∀ y r' p, r.map f ≠ .ok y r' p :=
   bind_not_ok h
 
 omit hext in
 /-- `Option<T>`: `null` is `None`, anything else is `Some` of the inner target -/
-theorem agree_option (s : Schema) (f t : Nat) (v : JV) (hv : VOK v)
+theorem agree_option (s : Schema) (f t : Nat) (v : JV) (hv : VOKg v)
     (ih : v ≠ .null → Agree1 (deTyped env f t s) (FromValue.fromValue cfg' ext' s v) (T ext v)) (hT : ∃ c tl, T ext v = c :: tl ∧ HeadOf v c) :
     Agree1 (deTyped env (f + 1) t (.option s)) (FromValue.fromValue cfg' ext' (.option s) v) (T ext v) := by
   intro rest pos hs
@@ -842,11 +954,11 @@ theorem agree_option (s : Schema) (f t : Nat) (v : JV) (hv : VOK v)
 
 omit hext in
 /-- `Option<T>` passes the weak invariant of its content through -/
-theorem agree_option_w (s : Schema) (f t : Nat) (v : JV) (hv : VOK v)
+theorem agree_option_w (s : Schema) (f t : Nat) (v : JV) (hv : VOKg v)
     (ih : v ≠ .null → Agree1w (deTyped env f t s) (FromValue.fromValue cfg' ext' s v) (T ext v)) (hT : ∃ c tl, T ext v = c :: tl ∧ HeadOf v c) :
     Agree1w (deTyped env (f + 1) t (.option s)) (FromValue.fromValue cfg' ext' (.option s) v) (T ext v) := by
   cases v with
-  | null => exact (agree_option ext hflt cfg' hap ext' s f t .null hv (fun h => absurd rfl h) hT).weak
+  | null => exact (agree_option ext hflt cfg' ext' s f t .null hv (fun h => absurd rfl h) hT).weak
   | bool _ | num _ | str _ | arr _ | obj _ =>
     intro rest pos hs
     obtain ⟨c, tl, hT, hc⟩ := hT
@@ -878,25 +990,25 @@ def Ttail : List JV → Bytes
   | [] => []
   | x :: xs => 0x2c :: Telems ext (x :: xs)
 
-omit hflt hap hext in
+omit hflt hext in
 theorem Telems_cons (x : JV) (xs : List JV) : Telems ext (x :: xs) = T ext x ++ Ttail ext xs := by
   cases xs <;> simp [Telems, Ttail]
 
-omit hflt hap hext in
+omit hflt hext in
 theorem hasNextElement_close (first : Bool) (rest : Bytes) (pos : Nat) :
     hasNextElement env first (0x5d :: rest) pos = .ok false (0x5d :: rest) pos := by
   unfold hasNextElement
   rw [withPeek_cons env _ (by decide)]
   simp
 
-omit hflt hap hext in
+omit hflt hext in
 theorem hasNextElement_first {c : UInt8} (hw : Machine.isWs c = false) (h5 : (c == 0x5d) = false) (tl : Bytes) (pos : Nat) :
     hasNextElement env true (c :: tl) pos = .ok true (c :: tl) pos := by
   unfold hasNextElement
   rw [withPeek_cons env _ hw]
   simp [h5]
 
-omit hflt hap hext in
+omit hflt hext in
 theorem hasNextElement_comma {c : UInt8} (hw : Machine.isWs c = false) (h5 : (c == 0x5d) = false) (tl : Bytes) (pos : Nat) :
     hasNextElement env false (0x2c :: c :: tl) pos = .ok true (c :: tl) (pos + 1) := by
   unfold hasNextElement
@@ -905,14 +1017,14 @@ theorem hasNextElement_comma {c : UInt8} (hw : Machine.isWs c = false) (h5 : (c 
   rw [withPeek_cons env _ hw]
   simp [h5]
 
-omit hflt hap hext in
+omit hflt hext in
 /-- the separator that follows an element is admissible (`,` or `]`) -/
 theorem sepOK_tail (xs : List JV) (rest : Bytes) : SepOK (Ttail ext xs ++ 0x5d :: rest) := by
   cases xs with
   | nil => exact .inr ⟨0x5d, rest, rfl, .inr (.inl rfl)⟩
   | cons x xs => exact .inr ⟨0x2c, _, rfl, .inl rfl⟩
 
-omit hflt hap hext in
+omit hflt hext in
 /-- after an element, `.` / `e` / `E` is neither `,` nor `]` -/
 theorem hasNextElement_bad {r : Bytes} (h : BadHead r) (pos : Nat) : ∀ b r' p', hasNextElement env false r pos ≠ .ok b r' p' := by
   obtain ⟨c, tl, rfl, hw, h5, h2, _⟩ := badHead_facts h
@@ -921,7 +1033,7 @@ theorem hasNextElement_bad {r : Bytes} (h : BadHead r) (pos : Nat) : ∀ b r' p'
   rw [withPeek_cons env _ hw]
   simp [h5, h2]
 
-omit hflt hap hext in
+omit hflt hext in
 theorem seqLoop_bad (de : Bytes → Nat → TOut) {r : Bytes} (h : BadHead r) :
     ∀ (n : Nat) (acc : List TVal) (pos : Nat) a r' p', seqLoop env de n false acc r pos ≠ .ok a r' p' := by
   intro n
@@ -932,7 +1044,7 @@ theorem seqLoop_bad (de : Bytes → Nat → TOut) {r : Bytes} (h : BadHead r) :
     unfold seqLoop nextElement
     exact bind_not_ok (bind_not_ok (hasNextElement_bad h pos))
 
-omit hflt hap hext in
+omit hflt hext in
 /-- a fixed-length visitor that has taken all its elements returns; with elements still to take it fails -/
 theorem tupleLoop_bad (de : Schema → Bytes → Nat → TOut) {r : Bytes} (h : BadHead r) :
     ∀ (ss : List Schema) (acc : List TVal) (pos : Nat) a r' p', tupleLoop env de ss false acc r pos = .ok a r' p' → BadHead r' := by
@@ -947,7 +1059,7 @@ theorem tupleLoop_bad (de : Schema → Bytes → Nat → TOut) {r : Bytes} (h : 
     unfold tupleLoop nextElement at e
     exact absurd e (bind_not_ok (bind_not_ok (hasNextElement_bad h pos)) a r' p')
 
-omit hflt hap hext in
+omit hflt hext in
 theorem endSeq_bad {r : Bytes} (h : BadHead r) (pos : Nat) : ∀ u r' p', (endSeq env r pos).res ≠ .ok u r' p' := by
   obtain ⟨c, tl, rfl, hw, h5, _, _⟩ := badHead_facts h
   intro u r' p'
@@ -958,7 +1070,7 @@ theorem endSeq_bad {r : Bytes} (h : BadHead r) (pos : Nat) : ∀ u r' p', (endSe
   · split <;> simp
   · simp
 
-omit hflt hap hext in
+omit hflt hext in
 /-- `end_seq` after a loop that failed, or returned in front of `.` / `e` / `E` -/
 theorem closeWith_seq_bad {α : Type} {ret : Res α} (h : ∀ x r p, ret = .ok x r p → BadHead r) :
     ∀ x r p, closeWith env (endSeq env) ret ≠ .ok x r p := by
@@ -1072,13 +1184,13 @@ theorem seqLoop_text (de : Bytes → Nat → TOut) (fv : JV → FromValue.R) :
           congr 1
           omega
 
-omit hflt hap hext in
+omit hflt hext in
 theorem endSeq_close (rest : Bytes) (pos : Nat) : (endSeq env (0x5d :: rest) pos).res = .ok () rest (pos + 1) := by
   unfold endSeq
   rw [skipWs_cons (by decide)]
   simp
 
-omit hflt hap hext in
+omit hflt hext in
 /-- anything but `]` after the elements a tuple visitor has taken is an error of `end_seq` -/
 theorem endSeq_not_close {c : UInt8} (hw : Machine.isWs c = false) (h5 : (c == 0x5d) = false) (tl : Bytes) (pos : Nat) :
     ∀ u r p, (endSeq env (c :: tl) pos).res ≠ .ok u r p := by
@@ -1090,7 +1202,7 @@ theorem endSeq_not_close {c : UInt8} (hw : Machine.isWs c = false) (h5 : (c == 0
   · split <;> simp
   · simp
 
-omit hflt hap hext in
+omit hflt hext in
 theorem seqAll_rem (fv : JV → FromValue.R) : ∀ (xs : List JV) (ys : List TVal) (rem : List JV),
     FromValue.seqAll fv xs = .ok (ys, rem) → rem = []
   | [], ys, rem, h => by simp [FromValue.seqAll] at h; exact h.2
@@ -1107,7 +1219,7 @@ theorem seqAll_rem (fv : JV → FromValue.R) : ∀ (xs : List JV) (ys : List TVa
 /-- depth budget: the value fits below the `t` typed containers already open -/
 def DepthOK (env : Env) (t : Nat) (v : JV) : Prop := env.cfg.limitOff = true ∨ t + Spec.WF.depthJV v ≤ 127
 
-omit hflt hap hext in
+omit hflt hext in
 theorem tooDeep_false (t : Nat) (xs : List JV) (h : DepthOK env t (.arr xs)) : tooDeep env t = false := by
   unfold tooDeep
   rcases h with h | h
@@ -1116,7 +1228,7 @@ theorem tooDeep_false (t : Nat) (xs : List JV) (h : DepthOK env t (.arr xs)) : t
     have : ¬ (t + 1 ≥ Gen.remainingDepthInit) := by simp [Gen.remainingDepthInit]; omega
     simp [this]
 
-omit hflt hap hext in
+omit hflt hext in
 theorem depth_mem : ∀ (xs : List JV) (x : JV), x ∈ xs → Spec.WF.depthJV x ≤ Spec.WF.depthJVs xs
   | [], _, h => by simp at h
   | y :: ys, x, h => by
@@ -1125,7 +1237,7 @@ theorem depth_mem : ∀ (xs : List JV) (x : JV), x ∈ xs → Spec.WF.depthJV x 
     · omega
     · have := depth_mem ys x h; omega
 
-omit hflt hap hext in
+omit hflt hext in
 theorem depthOK_elem (t : Nat) (xs : List JV) (x : JV) (hx : x ∈ xs) (h : DepthOK env t (.arr xs)) : DepthOK env (t + 1) x := by
   rcases h with h | h
   · exact .inl h
@@ -1134,7 +1246,7 @@ theorem depthOK_elem (t : Nat) (xs : List JV) (x : JV) (hx : x ∈ xs) (h : Dept
     have := depth_mem xs x hx
     omega
 
-omit hflt hap hext in
+omit hflt hext in
 theorem vok_elem : ∀ (xs : List JV) (x : JV), x ∈ xs → VOK (.arr xs) → VOK x := by
   intro xs x hx hv
   have h1 : shapeWs xs = true := by simpa [VOK, shapeW] using hv
@@ -1147,12 +1259,29 @@ theorem vok_elem : ∀ (xs : List JV) (x : JV), x ∈ xs → VOK (.arr xs) → V
     · exact h1.1
     · exact ih hx h1.2
 
+omit hflt hext in
+theorem voka_elem : ∀ (xs : List JV) (x : JV), x ∈ xs → VOKa (.arr xs) → VOKa x := by
+  intro xs x hx hv
+  have h1 : shapeAs xs = true := by simpa [VOKa, shapeA] using hv
+  clear hv
+  induction xs with
+  | nil => simp at hx
+  | cons y ys ih =>
+    simp only [shapeAs, Bool.and_eq_true] at h1
+    rcases List.mem_cons.mp hx with rfl | hx
+    · exact h1.1
+    · exact ih hx h1.2
+
+omit hflt hext in
+theorem vokg_elem (xs : List JV) (x : JV) (hx : x ∈ xs) (hv : VOKg (.arr xs)) : VOKg x :=
+  hv.imp (vok_elem xs x hx) (voka_elem xs x hx)
+
 /-- `Vec<T>` -/
-theorem agree_seq (s : Schema) (f t : Nat) (v : JV) (hv : VOK v) (hd : DepthOK env t v)
+theorem agree_seq (s : Schema) (f t : Nat) (v : JV) (hv : VOKg v) (hd : DepthOK env t v)
     (ih : ∀ xs, v = .arr xs → ∀ x ∈ xs, Agree1w (deTyped env f (t + 1) s) (FromValue.fromValue cfg' ext' s x) (T ext x)) :
     Agree1 (deTyped env (f + 1) t (.seq s)) (FromValue.fromValue cfg' ext' (.seq s) v) (T ext v) := by
   intro rest pos hs
-  obtain ⟨c, tl, hT, hc⟩ := T_head ext hext v hv
+  obtain ⟨c, tl, hT, hc⟩ := T_head_g ext hext v hv
   have hw := (headOf_facts hc).1
   have ht := headOf_tests hc
   rw [deTyped_seq]
@@ -1160,8 +1289,8 @@ theorem agree_seq (s : Schema) (f t : Nat) (v : JV) (hv : VOK v) (hd : DepthOK e
   | arr xs =>
     have hel : ∀ x ∈ xs, Agree1w (deTyped env f (t + 1) s) (FromValue.fromValue cfg' ext' s x) (T ext x) ∧
         ∃ c tl, T ext x = c :: tl ∧ HeadOf x c :=
-      fun x hx => ⟨ih xs rfl x hx, T_head ext hext x (vok_elem xs x hx hv)⟩
-    have hloop := seqLoop_text ext hext hflt cfg' hap (deTyped env f (t + 1) s) (FromValue.fromValue cfg' ext' s) xs hel true []
+      fun x hx => ⟨ih xs rfl x hx, T_head_g ext hext x (vokg_elem xs x hx hv)⟩
+    have hloop := seqLoop_text ext hext hflt (deTyped env f (t + 1) s) (FromValue.fromValue cfg' ext' s) xs hel true []
       ((Telems ext xs ++ 0x5d :: rest).length + 1) rest (pos + 1) (by simp)
     simp only [if_true] at hloop
     have hde : deSeq env t (fun r p => (seqLoop env (deTyped env f (t + 1) s) (r.length + 1) true [] r p).map .seq)
@@ -1204,14 +1333,14 @@ theorem agree_seq (s : Schema) (f t : Nat) (v : JV) (hv : VOK v) (hd : DepthOK e
     simp only [ht.2.2.2.2.2.2.1, Bool.false_eq_true, if_false]
     exact peekInvalidType_not_ok _ _ _ _ _ _
 
-omit hflt hap hext in
+omit hflt hext in
 /-- positionwise agreement of the element parsers of a fixed-length visitor (tuple, struct fields in order) with the
     elements of an array: the i-th schema on the i-th element -/
 def TupAgree (de : Schema → Bytes → Nat → TOut) (fv : Schema → JV → FromValue.R) : List Schema → List JV → Prop
   | s :: ss, x :: xs => Agree1w (de s) (fv s x) (T ext x) ∧ TupAgree de fv ss xs
   | _, _ => True
 
-omit hflt hap hext in
+omit hflt hext in
 theorem tupAgree_of_all (de : Schema → Bytes → Nat → TOut) (fv : Schema → JV → FromValue.R) : ∀ (ss : List Schema) (xs : List JV),
     (∀ s ∈ ss, ∀ x ∈ xs, Agree1w (de s) (fv s x) (T ext x)) → TupAgree ext de fv ss xs
   | [], _, _ => trivial
@@ -1322,7 +1451,7 @@ theorem tupleLoop_text (f t : Nat) : ∀ (ss : List Schema) (xs : List JV),
           congr 1
           omega
 
-omit hflt hap hext in
+omit hflt hext in
 theorem tupleSeq_rem_len (cfg : FromValue.Cfg) (e : FromValue.Ext) : ∀ (ss : List Schema) (xs : List JV) (ys : List TVal) (rem : List JV),
     FromValue.tupleSeq cfg e ss xs = .ok (ys, rem) → rem.length ≤ xs.length
   | [], xs, ys, rem, h => by simp [FromValue.tupleSeq] at h; rw [h.2]; exact Nat.le_refl _
@@ -1338,7 +1467,7 @@ theorem tupleSeq_rem_len (cfg : FromValue.Cfg) (e : FromValue.Ext) : ∀ (ss : L
         have := tupleSeq_rem_len cfg e ss xs ys' rest' hr
         rw [← h.2]; simp only [List.length_cons]; omega
 
-omit hflt hap hext in
+omit hflt hext in
 theorem tupleSeq_rem_mem (cfg : FromValue.Cfg) (e : FromValue.Ext) : ∀ (ss : List Schema) (xs : List JV) (ys : List TVal) (rem : List JV),
     FromValue.tupleSeq cfg e ss xs = .ok (ys, rem) → ∀ x ∈ rem, x ∈ xs
   | [], xs, ys, rem, h => by simp [FromValue.tupleSeq] at h; rw [h.2]; exact fun _ h => h
@@ -1356,18 +1485,18 @@ theorem tupleSeq_rem_mem (cfg : FromValue.Cfg) (e : FromValue.Ext) : ∀ (ss : L
         exact List.mem_cons_of_mem _ (tupleSeq_rem_mem cfg e ss xs ys' rest' hr z hz)
 
 /-- fixed-length tuples -/
-theorem agree_tuple (ss : List Schema) (f t : Nat) (v : JV) (hv : VOK v) (hd : DepthOK env t v)
+theorem agree_tuple (ss : List Schema) (f t : Nat) (v : JV) (hv : VOKg v) (hd : DepthOK env t v)
     (ih : ∀ xs, v = .arr xs → TupAgree ext (deTyped env f (t + 1)) (FromValue.fromValue cfg' ext') ss xs) :
     Agree1 (deTyped env (f + 1) t (.tuple ss)) (FromValue.fromValue cfg' ext' (.tuple ss) v) (T ext v) := by
   intro rest pos hs
-  obtain ⟨c, tl, hT, hc⟩ := T_head ext hext v hv
+  obtain ⟨c, tl, hT, hc⟩ := T_head_g ext hext v hv
   have hw := (headOf_facts hc).1
   have ht := headOf_tests hc
   rw [deTyped_tuple]
   cases v with
   | arr xs =>
-    have hhd : ∀ x ∈ xs, ∃ c tl, T ext x = c :: tl ∧ HeadOf x c := fun x hx => T_head ext hext x (vok_elem xs x hx hv)
-    have hloop := tupleLoop_text ext hext hflt cfg' hap ext' f (t + 1) ss xs (ih xs rfl) hhd true [] rest (pos + 1)
+    have hhd : ∀ x ∈ xs, ∃ c tl, T ext x = c :: tl ∧ HeadOf x c := fun x hx => T_head_g ext hext x (vokg_elem xs x hx hv)
+    have hloop := tupleLoop_text ext hext hflt cfg' ext' f (t + 1) ss xs (ih xs rfl) hhd true [] rest (pos + 1)
     simp only [if_true, Bool.true_and] at hloop
     have hde : deSeq env t (fun r p => (tupleLoop env (deTyped env f (t + 1)) ss true [] r p).map .seq)
         (0x5b :: (Telems ext xs ++ 0x5d :: rest)) pos =
@@ -1492,15 +1621,15 @@ theorem agree_deTyped {env : Env} (hflt : env.flt = false) (cfg' : FromValue.Cfg
       have := ih s' (by simp only [Schema.size] at hs; omega) (by simpa [agreeFrag] using hfr) t v hv hnf hd
       simpa [FromValue.fromValue] using this
     | option s' =>
-      exact agree_option ext hflt cfg' hap ext' s' f t v hv
+      exact agree_option ext hflt cfg' ext' s' f t v hv.g
         (fun _ => ih s' (by simp only [Schema.size] at hs; omega) (by simpa [agreeFrag] using hfr) t v hv hnf hd) (T_head ext hext v hv)
     | seq s' =>
-      refine agree_seq ext hext hflt cfg' hap ext' s' f t v hv hd fun xs hxs x hx => ?_
+      refine agree_seq ext hext hflt cfg' ext' s' f t v hv.g hd fun xs hxs x hx => ?_
       subst hxs
       exact (ih s' (by simp only [Schema.size] at hs; omega) (by simpa [agreeFrag] using hfr) (t + 1) x (vok_elem xs x hx hv)
         (noFloat_elem xs x hx (by simpa [Spec.WF.noFloat] using hnf)) (depthOK_elem t xs x hx hd)).weak
     | tuple ss =>
-      refine agree_tuple ext hext hflt cfg' hap ext' ss f t v hv hd fun xs hxs => tupAgree_of_all ext _ _ ss xs fun s' hs' x hx => ?_
+      refine agree_tuple ext hext hflt cfg' ext' ss f t v hv.g hd fun xs hxs => tupAgree_of_all ext _ _ ss xs fun s' hs' x hx => ?_
       subst hxs
       have hsz := size_mem_list ss s' hs'
       exact (ih s' (by simp only [Schema.size] at hs; omega) (agreeFrag_mem ss s' hs' (by simpa [agreeFrag] using hfr)) (t + 1) x
